@@ -164,3 +164,34 @@ Proof.
   destruct (hv_put_inv D vals h1 (v_round v) (v_type v) s' I1 Hty Gs') as [A B].
   split; [exact A | rewrite B; exact H1].
 Qed.
+
+Lemma vs_set_peer_maj23_votes_in D s peer key : VotesIn D s -> VotesIn D (vs_set_peer_maj23 s peer key).
+Proof.
+  intro H. unfold vs_set_peer_maj23. destruct (lookup_peer peer (vs_peermaj s)); [exact H|].
+  intros k bv L. cbn in L.
+  destruct (lookup_bv key (vs_byblock s)) as [bv0|] eqn:L0.
+  - destruct (blockid_eqb k key) eqn:E.
+    + apply blockid_eqb_eq in E. subst k. rewrite lookup_update_same in L. injection L as <-. cbn. eapply H; exact L0.
+    + apply blockid_eqb_neq in E. rewrite lookup_update_other in L by exact E. eapply H; exact L.
+  - destruct (blockid_eqb k key) eqn:E.
+    + apply blockid_eqb_eq in E. subst k. rewrite lookup_update_same in L. injection L as <-. cbn. apply slots_ok_repeat.
+    + apply blockid_eqb_neq in E. rewrite lookup_update_other in L by exact E. eapply H; exact L.
+Qed.
+
+Lemma hv_set_peer_maj23_inv D vals h r ty peer b :
+  HVInv D vals h ->
+  HVInv D vals (hv_set_peer_maj23 h r ty peer b) /\ hv_height (hv_set_peer_maj23 h r ty peer b) = hv_height h.
+Proof.
+  intro I. unfold hv_set_peer_maj23.
+  destruct (negb ((ty =? PREVOTE)%N || (ty =? PRECOMMIT)%N)) eqn:Ty; [split; [exact I | reflexivity]|].
+  apply negb_false_iff in Ty.
+  assert (Hty : ty = PREVOTE \/ ty = PRECOMMIT).
+  { apply orb_true_iff in Ty as [T|T]; apply N.eqb_eq in T; auto. }
+  destruct (hv_get h r ty) as [s|] eqn:G; [|split; [exact I | reflexivity]].
+  pose proof (hv_get_good D vals h r ty s I G) as Gs.
+  assert (Tyeq : (if (ty =? PREVOTE)%N then PREVOTE else PRECOMMIT) = ty) by (destruct Hty as [-> | ->]; reflexivity).
+  rewrite Tyeq in Gs. destruct Gs as (A & B & C1 & C2 & C3 & C4).
+  destruct (vs_set_peer_maj23_inv s peer b A) as [A' (F1 & F2 & F3 & F4)].
+  apply hv_put_inv; [exact I | exact Hty|].
+  split; [exact A'|]. split; [apply vs_set_peer_maj23_votes_in; exact B|]. repeat split; congruence.
+Qed.
